@@ -4,11 +4,11 @@ never /repo itself) and writes seeded/RESULTS.json + a table on stdout.
 usage: tools/mutant_matrix.py [--all] [ids...]"""
 import json, os, subprocess, sys, tempfile, time
 ROOT = os.path.dirname(os.path.dirname(os.path.abspath(__file__)))
-REL = {"C01": ["C13", "C05", "C15"], "C02": ["C05", "C14"], "C03": ["C04", "C14", "C17"],
-       "C04": ["C03", "C05"], "C05": ["C04", "C12"], "C06": ["C16"], "C07": ["C16"],
+REL = {"C01": ["C13", "C05", "C15"], "C02": ["C05", "C14", "C12"], "C03": ["C04", "C14", "C17", "C06"],
+       "C04": ["C03", "C05"], "C05": ["C04", "C12"], "C06": ["C16", "C05"], "C07": ["C16", "C01"],
        "C08": ["C15", "C05", "C01"], "C09": ["C18", "C15"], "C10": ["C11"], "C11": ["C10"],
-       "C12": ["C05"], "C13": ["C01", "C15"], "C14": ["C03"], "C15": ["C08", "C01"],
-       "C16": ["C07", "C06"], "C17": ["C03"], "C18": []}
+       "C12": ["C05"], "C13": ["C01", "C15"], "C14": ["C03", "C04"], "C15": ["C08", "C01", "C02"],
+       "C16": ["C07", "C06", "C12"], "C17": ["C03"], "C18": ["C17"]}
 ALL = sorted(REL)
 args = sys.argv[1:]
 full = "--all" in args
